@@ -57,6 +57,10 @@ fn protected_palette() -> Vec<(ProtectedHeader, Vec<u8>)> {
     for wire in [vec![0xa0u8], vec![0xbf, 0xff], vec![0xa1, 0x18, 0x01, 0x26], { let mut w = vec![0xa1, 0x04]; w.extend(bstr(&bytes(300, 7))); w }] {
         if let Ok(p) = ProtectedHeader::from_cbor_bstr(Value::Bytes(wire.clone())) { v.push((p, wire)); }
     }
+    // built in memory with extra parameters in a non-sorted insertion order: the slot is the header's encoding, typed fields
+    // first, extras exactly in insertion order (what `to_vec` and the wire form of the message use)
+    let h = HeaderBuilder::new().algorithm(iana::Algorithm::ES256).key_id(vec![9, 9]).value(100, Value::from(1)).value(50, Value::from(2)).text_value("z".into(), Value::Null).value(-3, Value::Bytes(vec![])).build();
+    v.push((ProtectedHeader { original_data: None, header: h }, vec![0xa6, 0x01, 0x26, 0x04, 0x42, 0x09, 0x09, 0x18, 0x64, 0x01, 0x18, 0x32, 0x02, 0x61, 0x7a, 0xf6, 0x22, 0x40]));
     v
 }
 
@@ -1048,6 +1052,34 @@ pub fn probe_messages() -> i32 {
             }
         }
     }
+    // order: recipients and signatures come back in wire order (three siblings with distinct key ids, at two levels)
+    {
+        let rk = |k: u8, kids: Vec<Value>| { let mut a = vec![Value::Bytes(vec![]), Value::Map(vec![(Value::from(4), Value::Bytes(vec![k]))]), Value::Null]; if !kids.is_empty() { a.push(Value::Array(kids)); } Value::Array(a) };
+        let sk = |k: u8| Value::Array(vec![Value::Bytes(vec![]), Value::Map(vec![(Value::from(4), Value::Bytes(vec![k]))]), Value::Bytes(vec![k])]);
+        let kids = |x: &CoseRecipient| -> Vec<u8> { x.recipients.iter().map(|c| c.unprotected.key_id.first().copied().unwrap_or(0)).collect() };
+        n += 4;
+        let top = rk(1, vec![rk(2, vec![rk(5, vec![]), rk(6, vec![]), rk(7, vec![])]), rk(3, vec![]), rk(4, vec![])]);
+        match CoseRecipient::from_cbor_value(top.clone()) {
+            Ok(x) => { if kids(&x) != vec![2, 3, 4] || kids(&x.recipients[0]) != vec![5, 6, 7] { if report("C09", format!("COSE_recipient {}: nested recipients come back as {:?} / {:?}, wire order is [2,3,4] / [5,6,7]", hex(&ser(&top)), kids(&x), x.recipients.first().map(kids))) { return 1; } }
+                       if x.clone().to_cbor_value().ok() != Some(top.clone()) { if report("C09,C07", format!("COSE_recipient {}: does not encode back to the same structure", hex(&ser(&top)))) { return 1; } } }
+            Err(e) => { if report("C09", format!("COSE_recipient {} rejected: {:?}", hex(&ser(&top)), e)) { return 1; } }
+        }
+        let enc = Value::Array(vec![Value::Bytes(vec![]), Value::Map(vec![]), Value::Null, Value::Array(vec![rk(2, vec![]), rk(3, vec![rk(8, vec![]), rk(9, vec![])]), rk(4, vec![])])]);
+        match CoseEncrypt::from_cbor_value(enc.clone()) {
+            Ok(x) => { let got: Vec<u8> = x.recipients.iter().map(|c| c.unprotected.key_id[0]).collect(); if got != vec![2, 3, 4] || kids(&x.recipients[1]) != vec![8, 9] { if report("C09", format!("COSE_Encrypt {}: recipients come back as {:?}, wire order is [2,3,4]", hex(&ser(&enc)), got)) { return 1; } } }
+            Err(e) => { if report("C09", format!("COSE_Encrypt {} rejected: {:?}", hex(&ser(&enc)), e)) { return 1; } }
+        }
+        let mac = Value::Array(vec![Value::Bytes(vec![]), Value::Map(vec![]), Value::Null, Value::Bytes(vec![1]), Value::Array(vec![rk(2, vec![]), rk(3, vec![]), rk(4, vec![])])]);
+        match CoseMac::from_cbor_value(mac.clone()) {
+            Ok(x) => { let got: Vec<u8> = x.recipients.iter().map(|c| c.unprotected.key_id[0]).collect(); if got != vec![2, 3, 4] { if report("C09", format!("COSE_Mac {}: recipients come back as {:?}, wire order is [2,3,4]", hex(&ser(&mac)), got)) { return 1; } } }
+            Err(e) => { if report("C09", format!("COSE_Mac {} rejected: {:?}", hex(&ser(&mac)), e)) { return 1; } }
+        }
+        let sgn = Value::Array(vec![Value::Bytes(vec![]), Value::Map(vec![]), Value::Null, Value::Array(vec![sk(2), sk(3), sk(4)])]);
+        match CoseSign::from_cbor_value(sgn.clone()) {
+            Ok(x) => { let got: Vec<u8> = x.signatures.iter().map(|c| c.signature[0]).collect(); if got != vec![2, 3, 4] { if report("C09", format!("COSE_Sign {}: signatures come back as {:?}, wire order is [2,3,4]", hex(&ser(&sgn)), got)) { return 1; } } }
+            Err(e) => { if report("C09", format!("COSE_Sign {} rejected: {:?}", hex(&ser(&sgn)), e)) { return 1; } }
+        }
+    }
     for _ in 0..scale(4000) {
         let kind = r.below(8) as usize;
         let mut a: Vec<Value> = if kind == 7 { match gen_recipient(&mut r, 0) { Value::Array(a) => a, _ => vec![] } } else { shapes[kind].iter().map(|w| gen_slot(&mut r, *w)).collect() };
@@ -1347,6 +1379,27 @@ pub fn probe_builders() -> i32 {
     if k.kty != KeyType::Assigned(iana::KeyType::EC2) || k.key_id != vec![9] || k.key_ops.len() != 1 || k.alg.is_some() || !k.base_iv.is_empty()
         || k.params != vec![(Label::Int(-1), Value::from(1)), (Label::Int(-2), Value::Bytes(vec![1])), (Label::Int(-3), Value::Bytes(vec![2])), (Label::Int(-4), Value::Bytes(vec![3]))] {
         if report("C19", format!("CoseKeyBuilder::new_ec2_priv_key(..).key_id.add_key_op x2: {:?}", k)) { return 1; } }
+    // adders append: extra parameters / claims / critical labels / key operations keep call order, whatever their labels
+    {
+        n += 4;
+        let k = CoseKeyBuilder::new_okp_key().param(-2, Value::from(1)).param(-1, Value::from(2)).param(-70000, Value::Null).param(8, Value::Null).param(-3, Value::Null).build();
+        let want: Vec<(Label, Value)> = vec![(Label::Int(-2), Value::from(1)), (Label::Int(-1), Value::from(2)), (Label::Int(-70000), Value::Null), (Label::Int(8), Value::Null), (Label::Int(-3), Value::Null)];
+        if k.params != want { if report("C19", format!("CoseKeyBuilder::param called with labels -2,-1,-70000,8,-3: params are {:?}, call order expected", k.params.iter().map(|x| x.0.clone()).collect::<Vec<_>>())) { return 1; } }
+        let k2 = CoseKeyBuilder::new_ec2_pub_key(iana::EllipticCurve::P_256, vec![1], vec![2]).param(8, Value::Null).param(-70001, Value::Null).build();
+        let labels: Vec<Label> = k2.params.iter().map(|x| x.0.clone()).collect();
+        if labels != vec![Label::Int(-1), Label::Int(-2), Label::Int(-3), Label::Int(8), Label::Int(-70001)] { if report("C19", format!("CoseKeyBuilder::new_ec2_pub_key(..).param(8).param(-70001): params labels are {:?}", labels)) { return 1; } }
+        let h = HeaderBuilder::new().value(100, Value::from(1)).text_value("b".into(), Value::Null).value(50, Value::from(2)).text_value("a".into(), Value::Null).value(-9, Value::Null)
+            .add_critical(iana::HeaderParameter::Kid).add_critical(iana::HeaderParameter::Alg).build();
+        let hl: Vec<Label> = h.rest.iter().map(|x| x.0.clone()).collect();
+        if hl != vec![Label::Int(100), Label::Text("b".into()), Label::Int(50), Label::Text("a".into()), Label::Int(-9)]
+            || h.crit != vec![RegisteredLabel::Assigned(iana::HeaderParameter::Kid), RegisteredLabel::Assigned(iana::HeaderParameter::Alg)] {
+            if report("C19", format!("HeaderBuilder value/text_value/add_critical in a non-sorted order: rest {:?} crit {:?}", hl, h.crit)) { return 1; } }
+        let c = cwt::ClaimsSetBuilder::new().claim(iana::CwtClaimName::Scope, Value::from(1)).text_claim("z".into(), Value::Null).claim(iana::CwtClaimName::Cnf, Value::from(2)).private_claim(-70000, Value::Null).text_claim("a".into(), Value::Null).build();
+        let cl: Vec<String> = c.rest.iter().map(|x| format!("{:?}", x.0)).collect();
+        let wantc: Vec<String> = vec![format!("{:?}", cwt::ClaimName::Assigned(iana::CwtClaimName::Scope)), format!("{:?}", cwt::ClaimName::Text("z".into())), format!("{:?}", cwt::ClaimName::Assigned(iana::CwtClaimName::Cnf)),
+            format!("{:?}", cwt::ClaimName::PrivateUse(-70000)), format!("{:?}", cwt::ClaimName::Text("a".into()))];
+        if cl != wantc { if report("C19", format!("ClaimsSetBuilder adders in a non-sorted order: rest names {:?}", cl)) { return 1; } }
+    }
     println!("probe builders: {} cases, no disagreement", n);
     0
 }
@@ -1417,6 +1470,38 @@ pub fn probe_roundtrip() -> i32 {
         fixed_point!(Header, p.clone(), "header map");
         fixed_point!(Header, u.clone(), "header map");
     } }
+    // C02 through the builders: a part that was decoded (a signer, a recipient, a counter signature) and is then put into a
+    // new message by a builder keeps its protected bytes - in what the signing closure is handed and in what is written
+    if relevant("C02") {
+        for p in &prot_wires {
+            let mut sigb = vec![0x83]; sigb.extend(bstr(p)); sigb.extend([0xa0, 0x41, 0x09]);
+            let sig = match CoseSignature::from_slice(&sigb) { Ok(x) => x, Err(_) => continue };
+            if sig.protected.original_data.as_deref() != Some(&p[..]) { continue; }
+            let want = bstr(p);
+            let has = |hay: &[u8]| hay.windows(want.len()).any(|w| w == &want[..]);
+            let hdr = HeaderBuilder::new().key_id(vec![1]).build();
+            n += 6;
+            let mut seen: Vec<Vec<u8>> = vec![];
+            let m1 = CoseSignBuilder::new().protected(hdr.clone()).payload(vec![1, 2]).add_created_signature(sig.clone(), b"aad", |d| { seen.push(d.to_vec()); vec![1] }).build();
+            let m2 = CoseSignBuilder::new().protected(hdr.clone()).payload(vec![1, 2]).try_add_created_signature(sig.clone(), b"aad", |d| -> Result<Vec<u8>, ()> { seen.push(d.to_vec()); Ok(vec![1]) }).unwrap().build();
+            let m3 = CoseSignBuilder::new().protected(hdr.clone()).add_detached_signature(sig.clone(), b"pl", b"aad", |d| { seen.push(d.to_vec()); vec![1] }).build();
+            let m4 = CoseSignBuilder::new().protected(hdr.clone()).try_add_detached_signature(sig.clone(), b"pl", b"aad", |d| -> Result<Vec<u8>, ()> { seen.push(d.to_vec()); Ok(vec![1]) }).unwrap().build();
+            let m5 = CoseSignBuilder::new().protected(hdr.clone()).add_signature(sig.clone()).build();
+            for (i, d) in seen.iter().enumerate() { if !has(d) { println!("FAILING-INPUT CoseSignBuilder signature helper #{} given the signer decoded from {}: the to-be-signed bytes {} do not carry the signer's received protected bytes {}", i, hex(&sigb), hex(d), hex(p)); return 1; } }
+            for (i, m) in vec![m1, m2, m3, m4, m5].into_iter().enumerate() { let w = m.to_vec().unwrap(); if !has(&w) { println!("FAILING-INPUT COSE_Sign built (helper #{}) around the signer decoded from {}: the encoding {} does not carry the signer's received protected bytes {}", i, hex(&sigb), hex(&w), hex(p)); return 1; } }
+            let hb = HeaderBuilder::new().add_counter_signature(sig.clone()).build();
+            let w = CoseSign1Builder::new().unprotected(hb).build().to_vec().unwrap();
+            if !has(&w) { println!("FAILING-INPUT COSE_Sign1 built with the counter signature decoded from {}: the encoding {} does not carry its received protected bytes {}", hex(&sigb), hex(&w), hex(p)); return 1; }
+            let mut rcb = vec![0x83]; rcb.extend(bstr(p)); rcb.extend([0xa0, 0xf6]);
+            if let Ok(rc) = CoseRecipient::from_slice(&rcb) {
+                n += 3;
+                let e = CoseEncryptBuilder::new().add_recipient(rc.clone()).build().to_vec().unwrap();
+                let m = CoseMacBuilder::new().add_recipient(rc.clone()).build().to_vec().unwrap();
+                let r2 = CoseRecipientBuilder::new().add_recipient(rc.clone()).build().to_vec().unwrap();
+                for (nm, w) in [("COSE_Encrypt", e), ("COSE_Mac", m), ("COSE_recipient", r2)] { if !has(&w) { println!("FAILING-INPUT {} built around the recipient decoded from {}: the encoding {} does not carry its received protected bytes {}", nm, hex(&rcb), hex(&w), hex(p)); return 1; } }
+            }
+        }
+    }
     // a zero-length byte string in a payload / ciphertext slot is a present, empty value (nil is the absent one)
     {
         n += 6;
